@@ -556,7 +556,7 @@ func (g *GroupWorld) strayBind() {
 		if p.Spec.NodeName != "" {
 			continue
 		}
-		hit := s.Chance(0.15)
+		hit := s.Chance(g.w.prof.PStray)
 		pick := s.U32()
 		if !hit {
 			continue
